@@ -462,6 +462,16 @@ func (mp *mergeProcessor) processBlock(
 	}
 
 	for _, link := range dagBlock.Links {
+		if dagBlock.Delta.IsCollection() {
+			// Collection blocks link to document composite blocks. The linked document might already
+			// have been merged (fully or partially) on its own, so it needs to go through the same
+			// process as a document merge instead of being blindly (re)applied.
+			if err := mp.processDocumentLink(ctx, link.Link); err != nil {
+				return err
+			}
+			continue
+		}
+
 		nd, err := mp.blockLS.Load(linking.LinkContext{Ctx: ctx}, link.Link, coreblock.BlockSchemaPrototype)
 		if err != nil {
 			return err
@@ -473,6 +483,52 @@ func (mp *mergeProcessor) processBlock(
 		}
 
 		if err := mp.processBlock(ctx, childBlock, link.Link); err != nil {
+			return err
+		}
+	}
+
+	return nil
+}
+
+// processDocumentLink merges the document composite block with the given link, along with any of its
+// ancestors that have not been merged yet, into the document it belongs to.
+func (mp *mergeProcessor) processDocumentLink(ctx context.Context, link cidlink.Link) error {
+	nd, err := mp.blockLS.Load(linking.LinkContext{Ctx: ctx}, link, coreblock.BlockSchemaPrototype)
+	if err != nil {
+		return err
+	}
+
+	docBlock, err := coreblock.GetFromNode(nd)
+	if err != nil {
+		return err
+	}
+
+	mt, err := getHeadsAsMergeTarget(ctx, keys.HeadstoreDocKey{
+		DocID:   string(docBlock.Delta.GetDocID()),
+		FieldID: core.COMPOSITE_NAMESPACE,
+	})
+	if err != nil {
+		return err
+	}
+
+	// The composites of the document are collected separately from the ones currently being merged.
+	composites := mp.composites
+	mp.composites = list.New()
+	defer func() { mp.composites = composites }()
+
+	err = mp.loadComposites(ctx, link.Cid, mt)
+	if err != nil {
+		return err
+	}
+
+	for e := mp.composites.Front(); e != nil; e = e.Next() {
+		block := e.Value.(*coreblock.Block)
+		blockLink, err := block.GenerateLink()
+		if err != nil {
+			return err
+		}
+		err = mp.processBlock(ctx, block, blockLink)
+		if err != nil {
 			return err
 		}
 	}
